@@ -111,6 +111,15 @@ pub fn check_seeks<R: Read + Seek, F: Fn() -> R>(q: &Q, mk: F, probes: &[Vec<u8>
                     Err(e) => Err(e),
                 }
             } else {
+                // the reset cursor has a history: a few moves (scans, seeks) precede the reset
+                if !q.entries.is_empty() {
+                    let h = crate::prng::hash_bytes(pi as u64, p);
+                    let k = &q.entries[(h as usize) % q.entries.len()].0;
+                    let _ = apply(&mut reused, &Op::Ge(k.clone()));
+                    for _ in 0..(h >> 8) % 70 {
+                        let _ = apply(&mut reused, if h & 1 == 0 { &Op::Next } else { &Op::Prev });
+                    }
+                }
                 let _ = apply(&mut reused, &Op::Reset);
                 apply(&mut reused, &op)
             };
